@@ -45,7 +45,12 @@ type cloneScript struct {
 	mods   map[string]string
 	inputs map[string]interface{}
 	sets   []int // value of "a" set by thread i
+	// builtin module "st" built from this template; every clone installs its own instance with
+	// ReplaceBuiltinModule("st", template) before it runs (the documented way to give clones private modules)
+	template func() map[string]tengo.Object
 }
+
+var curTemplate map[string]tengo.Object // the embedder's attribute table of the harness being explored
 
 var cloneScripts = []cloneScript{
 	{name: "string-constant-index", src: `s := "héllo"; c := s[a]; out := string(c) + s`, inputs: map[string]interface{}{"a": 0}, sets: []int{1, 2, 3}},
@@ -59,6 +64,10 @@ var cloneScripts = []cloneScript{
 		sets: []int{1, 2, 3}},
 	// format() works on a printer taken from a process-wide pool: the only scratch state shared by ALL executions
 	{name: "format-builtin", src: `out := format("%d-%s", a, "x")`, inputs: map[string]interface{}{"a": 0}, sets: []int{1, 2, 3}},
+	{name: "replaced-builtin-module-with-mutable-attribute", src: `st := import("st"); st.state.n += a; out := st.state.n`, inputs: map[string]interface{}{"a": 0}, sets: []int{1, 2, 3},
+		template: func() map[string]tengo.Object {
+			return map[string]tengo.Object{"state": &tengo.Map{Value: map[string]tengo.Object{"n": &tengo.Int{Value: 0}}}}
+		}},
 	{name: "runtime-error-in-module", src: `m := import("mod")
 out := m.f(a)`, mods: map[string]string{"mod": `export {f: func(x) {
 	if x > 1 {
@@ -91,6 +100,11 @@ func compileClone(sc cloneScript) *tengo.Compiled {
 	for k, v := range sc.inputs {
 		_ = s.Add(k, v)
 	}
+	if sc.template != nil {
+		mm := tengo.NewModuleMap()
+		mm.AddBuiltinModule("st", curTemplate)
+		s.SetImports(mm)
+	}
 	if sc.mods != nil {
 		mm := tengo.NewModuleMap()
 		for n, src := range sc.mods {
@@ -106,6 +120,9 @@ func compileClone(sc cloneScript) *tengo.Compiled {
 }
 
 func runOne(cl *tengo.Compiled, a int) string {
+	if curTemplate != nil {
+		cl.ReplaceBuiltinModule("st", curTemplate)
+	}
 	_ = cl.Set("a", a)
 	err := cl.Run()
 	var parts []string
@@ -123,9 +140,16 @@ func runOne(cl *tengo.Compiled, a int) string {
 func (h cloneHarness) Start(s *vsched.Sched) vsched.World {
 	w := &cloneWorld{s: s, results: make([]string, h.k), want: make([]string, h.k), done: make([]bool, h.k)}
 	// sequential baseline on an independent compilation (pass-through mode: no thread is running)
+	curTemplate = nil
+	if h.sc.template != nil {
+		curTemplate = h.sc.template()
+	}
 	base := compileClone(h.sc)
 	for i := 0; i < h.k; i++ {
 		w.want[i] = runOne(base.Clone(), h.sc.sets[i])
+	}
+	if h.sc.template != nil {
+		curTemplate = h.sc.template() // a fresh table for the explored run (the baseline may have been written through)
 	}
 	c := compileClone(h.sc)
 	w.tr = vmk.New(s)
